@@ -8,18 +8,21 @@ claim(
     "C01",
     "other",
     "Partial (mechanisms 1, 3 and 4, and the unwrap/unreachable sites of mechanism 2 that lie inside the functions listed). Unbounded proof (Verus, requires/ensures/invariant/decreases on the function text extracted by span on every run "
-    "from parse/base.rs, sass.rs, stylesheet.rs, media_query.rs, keyframes.rs, at_root_query.rs, value.rs, lexer.rs, error.rs, lib.rs and common.rs: 13 units, 80 functions) that the scanner layer of all "
+    "from parse/base.rs, sass.rs, stylesheet.rs, media_query.rs, keyframes.rs, at_root_query.rs, value.rs, lexer.rs, error.rs, lib.rs, common.rs, ast/expr.rs and ast/stmt.rs: 19 units, 131 functions) that the scanner layer of all "
     "three syntaxes - BaseParser's 20 scanning methods incl. declaration_value, the indented syntax's overrides, indentation look-ahead and comment parsers, the "
     "stylesheet parser's interpolation/comment/url/string/almost-any-value/declaration-value scanners, the media-query, keyframes-selector and @at-root query parsers, "
-    "the number-literal scanners - terminates on every token buffer, keeps the cursor inside the buffer, never modifies the buffer, satisfies the progress clauses its "
+    "the number-literal scanners - and, above it, the @media/@supports/@import grammars, argument declarations and invocations, member lists and `with (..)` configurations, the statement-level block loops "
+    "(parse_children, parse_statements, @if/@else chains, @each/@while heads, variable declarations; indented syntax: parse_statements, parse_child, while_indented_lower, scan_else), the calculation grammar, "
+    "parenthesised lists and maps - terminates on every token buffer, keeps the cursor inside the buffer, never modifies the buffer, satisfies the progress clauses its "
     "callers' measures need, has no integer overflow/underflow, and never reaches an unwrap()/unreachable!()/todo!()/raw_text/hex_char_for/char::from_u32().unwrap() "
     "precondition failure; the error conversion chain (SassError::raw/kind, raw_to_parse_error: mechanism 4) keeps its two unreachable!()s unreachable for every error value; the real Lexer "
-    "functions meet, for buffers of any length, the interface contracts the parser units assume; relative to one assumed, undischarged contract (the expression parser does not move the cursor backwards or touch the buffer). The Lexer interface and the leaf methods Verus "
+    "functions meet, for buffers of any length, the interface contracts the parser units assume; relative to assumed, undischarged contracts: the expression parser entry points do not move the cursor backwards or touch the buffer; the statement callback passed to the block loops does neither and has "
+    "consumed input when it returns Ok (the block loops' termination rests on it; termination of the two callback loops of the indented syntax is not proved at all); str::parse::<f64>() does not fail on scanned number text. The Lexer interface and the leaf methods Verus "
     "cannot take (expect_char, scan, scan_ident_char, consume/expect_identifier) are discharged by Kani on the real code (bounded: buffer <= 4 tokens, "
     "loop-free functions); the char helpers and std specifications over all char/u32 (complete). Number::convert's precondition (table entry exists) "
     "is discharged at its call sites in sass_number.rs (all 37x37 simple unit pairs), Value::cmp and clamp() (unit representatives). Level 'other' "
     "because some obligations are bounded stand-ins; they are listed as such in the evidence and not counted as proved. NOT covered: the recursive-descent "
-    "statement/expression parsers proper (stylesheet.rs parse_statement.., value.rs parse_value..), selector parser, evaluation, serialization, the unwrap/unreachable sites outside the functions listed, min()/max(), bin_op.rs, non-UTF-8 input, imports.",
+    "statement dispatcher and declaration/style-rule parsers (stylesheet.rs parse_statement, parse_declaration_or_buffer, ..), the expression parser proper (value.rs parse_value, parse_single_expression), selector parser, evaluation, serialization, the unwrap/unreachable sites outside the functions listed, min()/max(), bin_op.rs, non-UTF-8 input, imports.",
     K_TRUST + " " + V_TRUST,
     "Verus loop/termination contracts on extracted functions + Kani call-site contracts",
     "DESIGN.md 5/C01",
@@ -86,9 +89,11 @@ claim(
     "(complete over the operator domain). operate_internal on concrete operand pairs: convertible operands fold to the number ordinary arithmetic gives, an unsimplifiable a+b / a-b keeps the left operand "
     "and its sign-normalised `op' n'` equals `op n` with n' >= 0. clamp(): over unit triples from the class representatives {none,px,in,em,deg}: never violates Number::convert's precondition, reduces only for mutually "
     "convertible units, result is one of the arguments and (for min <= max) lies in the range, otherwise the arguments are kept in order. One known finding is reported (inverted range, dart-sass parity). "
-    "NOT covered: min()/max() (recursive drop glue of heap-stored CalculationArg: CBMC does not finish), the serializer's use of the parenthesisation rule (write_calculation_arg), parsing.",
-    K_TRUST + " verify_compatible_numbers stubbed (always Ok) in the clamp harnesses.",
-    "Kani call-site contracts (straight-line harnesses over unit representatives)",
+    "The printer (Verus, unit serializer_calc, unbounded depth): Serializer::write_calculation_arg appends, for every argument tree over + - * /, a text with the leaves verbatim, operators infix, parentheses at least where "
+    "the value would otherwise change and spaces around + and - (relational spec ok_onto; superfluous parentheses/optional spaces allowed), and the real rule/precedences equal the semantic predicates. "
+    "NOT covered: min()/max() (recursive drop glue of heap-stored CalculationArg: CBMC does not finish), the text of the leaves (numbers, nested calculations), evaluation of calc arguments in the Visitor; the calculation grammar's parser is covered for termination and panics only (C01, unit value_calc).",
+    K_TRUST + " verify_compatible_numbers stubbed (always Ok) in the clamp harnesses. " + V_TRUST + " Assumed for the printer: visit_number/visit_calculation append some text or fail; the two byte-append idioms (R34).",
+    "Kani call-site contracts (straight-line harnesses over unit representatives) + Verus functional contract on the recursive printer",
     "DESIGN.md 5/C16",
 )
 claim(
@@ -131,9 +136,9 @@ claim(
     "proof",
     "Narrow (mechanism 4 of 5 only: operator precedence climbing in the expression parser). Unbounded proof (Verus, on the text of parse/value.rs and common.rs extracted by span on every run): "
     "BinaryOp::precedence equals the language's precedence table (= ; or ; and ; == != ; < <= > >= ; + - ; * / %); the operator stack of the expression parser keeps, across resolve_one_operation, "
-    "resolve_operations and add_operator, the invariant that pending operators are strictly increasing in precedence from bottom to top with exactly one waiting left operand each - so an operator of "
-    "equal or higher precedence is always reduced before a new one is pushed (precedence and left associativity), every pop/unwrap on the two stacks is safe, and resolve_operations terminates with an "
-    "empty stack. NOT covered: everything else the statement lists - variables and scoping (evaluate/scope.rs keeps Values behind Arc<RefCell<BTreeMap>>: outside Verus, and dropping a Value ICEs Kani), "
+    "resolve_operations, add_operator, add_single_expression, reset_state and resolve_space_expressions, the invariant that pending operators are strictly increasing in precedence from bottom to top with exactly one waiting left operand each - so an operator of "
+    "equal or higher precedence is always reduced before a new one is pushed (precedence and left associativity), every pop/unwrap on the two stacks is safe, resolve_operations terminates with an "
+    "empty stack, and no operator is left pending when a new space-separated element starts. NOT covered: everything else the statement lists - variables and scoping (evaluate/scope.rs keeps Values behind Arc<RefCell<BTreeMap>>: outside Verus, and dropping a Value ICEs Kani), "
     "control flow, argument binding, and/or short-circuit, string concatenation, the slash-as-division rule, and what the evaluator does with the parsed tree (all Visitor code).",
     V_TRUST + " Assumed, discharged nowhere: parse_single_expression does not touch the operator stack of its caller (nested expressions use a fresh ValueParser) and keeps the lexer well-formed; "
     "AST node construction replaced by opaque constructors (R19); the four Option-idiom rewrites R20/R21 (each turns into a proof obligation).",
